@@ -427,6 +427,10 @@ def step_dict(ctx, g, h, sh, rng):
     kvs = dict((rng.choice(worldgen.OFFS + [20, 3]), rng.randrange(1, 9)) for _ in range(rng.choice([0, 1, 2, 3])))
     E = w.expr
     en = lambda x: None if x is None else w.expr_num[id(x)]  # noqa: E731
+
+    def clone(x, doff=0, attr=False):
+        at = set(x.attributes) | ({g.SymbolicExpression.Attribute.GOT} if attr else set())
+        return g.SymAddrConst(x.offset + doff, x.symbol, at)
     item = None
     if m == "set":
         def fi(): d[k] = E(e)
@@ -477,8 +481,13 @@ def step_dict(ctx, g, h, sh, rng):
             "items": (lambda: [(a, en(b)) for a, b in d.items()], lambda: sorted(s.items())),
             "eq": (lambda: (d == {a: E(b) for a, b in s.items()}, d == {a: E(b) for a, b in sorted(s.items(), reverse=True)},
                             {a: E(b) for a, b in sorted(s.items(), reverse=True)} == d, d != {a: E(b) for a, b in sorted(s.items(), reverse=True)},
-                            d == {a: E(b) for a, b in list(s.items())[:-1]} if s else False),
-                   lambda: (True, True, True, False, False)),
+                            d == {a: E(b) for a, b in list(s.items())[:-1]} if s else False,
+                            # values are compared by value: equal but distinct expression objects, and ones differing in one field
+                            d == {a: clone(E(b)) for a, b in s.items()}, {a: clone(E(b)) for a, b in s.items()} == d,
+                            all(hash(clone(E(b))) == hash(E(b)) for b in s.values()),
+                            (d == {a: clone(E(b), doff=(1 if i == 0 else 0)) for i, (a, b) in enumerate(s.items())}) if s else False,
+                            (d == {a: clone(E(b), attr=(i == 0)) for i, (a, b) in enumerate(s.items())}) if s else False),
+                   lambda: (True, True, True, False, False, True, True, True, False, False)),
         }
         fi, fs = fns[m]
         ri, rs = call(g, fi), call(g, fs)
